@@ -95,6 +95,10 @@ let gen_history (seed : int) (nops : int) (ndocs : int) (profile : int) : string
       else if choice < 92 then begin
         (* assignment from a value that is neither inside nor around the destination *)
         let cands = List.filter (fun h2 -> match handles.(h2) with Some j -> not (related !w r j) | None -> false) lh in
+        if rand 7 = 0 then
+          (* the source is a reference that designates nothing (handle 99 is never bound): the destination becomes null *)
+          (Printf.sprintf "assign %d 99" h, OSet (r, SNull), None)
+        else
         match cands with
         | [] -> (Printf.sprintf "clear %d" h, OClear r, None)
         | _ -> let h2 = pick cands in
@@ -183,6 +187,7 @@ let run_script (ndocs : int) (script : string) : string =
       | ["setmember"; h; k; x] -> (OSetMember (hid h, bytes_of_hex k, scalar_of_dump x), None)
       | ["rmidx"; h; i] -> (ORemoveIdx (hid h, nat i), None)
       | ["rmkey"; h; k] -> (ORemoveKey (hid h, bytes_of_hex k), None)
+      | ["assign"; a; "99"] -> (OSet (hid a, SNull), None)
       | ["assign"; a; b] -> (OAssign (hid a, hid b), None)
       | ["dclear"; d] -> (ODocClear (nat d), None)
       | ["dcopy"; d; s] -> (ODocCopy (nat d, nat s), None)
